@@ -209,7 +209,25 @@ func main() {
 				f     func(b []byte)
 			}{{"honest", func(b []byte) {}}, {"hash-bit", func(b []byte) { b[hoff+rng.Intn(32)] ^= 1 << uint(rng.Intn(8)) }},
 				{"ek-bit", func(b []byte) { b[384*p.K+rng.Intn(p.EkSize)] ^= 1 << uint(rng.Intn(8)) }}, {"hash-zero", func(b []byte) { copy(b[hoff:hoff+32], make([]byte, 32)) }},
-				{"z-bit", func(b []byte) { b[hoff+32+rng.Intn(32)] ^= 1 }}} {
+				{"z-bit", func(b []byte) { b[hoff+32+rng.Intn(32)] ^= 1 }},
+				// the embedded encapsulation key spelled with one coefficient c < 767 as c + q: the stored hash is then the hash of the REDUCED
+				// spelling, not of the bytes that are there, and FIPS 203 7.3 hashes the bytes that are there
+				{"ek-coef+q", func(b []byte) {
+					ek := b[384*p.K : 384*p.K+384*p.K]
+					for idx := rng.Intn(256 * p.K); ; idx = (idx + 1) % (256 * p.K) {
+						o := 3 * (idx / 2)
+						var c int
+						if idx%2 == 0 {
+							c = int(ek[o]) | int(ek[o+1]&0x0f)<<8
+						} else {
+							c = int(ek[o+1]>>4) | int(ek[o+2])<<4
+						}
+						if c < 767 {
+							copy(ek, set12(ek, idx, c+mlkemref.Q))
+							return
+						}
+					}
+				}}} {
 				b := append([]byte{}, refDk...)
 				d.f(b)
 				l := line{Ev: "parse-dk", Param: p.Name, Class: d.class, KK: p.K, HashOK: bytes.Equal(mlkemref.H(b[384*p.K:hoff]), b[hoff:hoff+32])}
